@@ -112,6 +112,30 @@ theorem roots_spec (g : Graph) (hw : g.WF) (xs : List Nat) (hd : Desc xs)
     Desc (rootsOf g xs) ∧ ∀ p, p ∈ rootsOf g xs ↔ RootsOf g (· ∈ xs) p :=
   ⟨desc_rootsOf g xs hd, mem_rootsOf g hw xs hx⟩
 
+/-- `ForkPoint` arm: iterated `common_ancestors_pos` = the heads of the commits that are
+ancestors of *every* candidate (empty for no candidates) -/
+theorem fork_point_spec (g : Graph) (hw : g.WF) (cands : List Nat) (hc : ∀ c ∈ cands, c < g.size) :
+    Desc (forkPoint g cands) ∧ ∀ p, p ∈ forkPoint g cands ↔ ForkPointOf g (· ∈ cands) p :=
+  forkPoint_spec g hw cands hc
+
+/-- `common_ancestors_pos` -/
+theorem common_ancestors_spec (g : Graph) (hw : g.WF) (s1 s2 : List Nat)
+    (h1 : ∀ a ∈ s1, a < g.size) (h2 : ∀ a ∈ s2, a < g.size) :
+    Desc (commonAncestorsPos g s1 s2) ∧ ∀ p, p ∈ commonAncestorsPos g s1 s2 ↔
+      HeadsOf g (fun c => (∃ a ∈ s1, Path g.par a c) ∧ ∃ a ∈ s2, Path g.par a c) p :=
+  ⟨desc_commonAncestorsPos g hw s1 s2, mem_commonAncestorsPos g hw s1 s2 h1 h2⟩
+
+/-- `take_latest_revset`: the bounded min-heap selection keeps exactly the candidates with fewer
+than `count` later candidates (committer timestamp, ties by position) -/
+theorem latest_spec (g : Graph) (cands : List Nat) (hn : cands.Nodup) (count : Nat) :
+    Desc (takeLatest g cands count) ∧
+      ∀ p, p ∈ takeLatest g cands count ↔ LatestOf g (· ∈ cands) count p := by
+  refine ⟨?_, mem_takeLatest g cands hn count⟩
+  unfold takeLatest
+  split
+  · simp [Desc]
+  · exact desc_sortDedupDesc _
+
 /-! ## the engine against the plan semantics, the plan against the expression semantics -/
 
 /-- every covered `ResolvedExpression` evaluates to the strictly descending list of the
